@@ -328,7 +328,7 @@ func IsExit(i ssa.Instruction) bool {
 // AlwaysBefore reports whether every path from the function entry to x
 // executes an instruction of the set first (set-dominance).
 func AlwaysBefore(set func(ssa.Instruction) bool, x ssa.Instruction) (bool, []int) {
-	for _, root := range Roots(x.Parent()) {
+	for _, root := range queryRoots(x.Parent()) {
 		if r, tr := (PathQuery{Avoid: set, Root: root}).Reaches(root.Blocks[0], 0, isInstr(x)); r {
 			return false, tr
 		}
@@ -352,6 +352,13 @@ func AlwaysAfter(x ssa.Instruction, set func(ssa.Instruction) bool) (bool, []int
 	return !r, tr
 }
 
+// AlwaysAfterIn is AlwaysAfter for an instruction that may sit in a helper inlined into several hosts: only the
+// continuation inside host root is followed.
+func AlwaysAfterIn(root *ssa.Function, x ssa.Instruction, set func(ssa.Instruction) bool) (bool, []int) {
+	r, tr := PathQuery{Avoid: set, Root: root}.Reaches(x.Block(), InstrIndex(x)+1, IsExit)
+	return !r, tr
+}
+
 // CanFollow reports whether some path from just after a reaches b.
 func CanFollow(a, b ssa.Instruction) bool {
 	r, _ := PathQuery{}.Reaches(a.Block(), InstrIndex(a)+1, isInstr(b))
@@ -360,7 +367,7 @@ func CanFollow(a, b ssa.Instruction) bool {
 
 // ReachableFromEntry reports whether x is reachable at all.
 func ReachableFromEntry(x ssa.Instruction) bool {
-	for _, root := range Roots(x.Parent()) {
+	for _, root := range queryRoots(x.Parent()) {
 		if r, _ := (PathQuery{Root: root}).Reaches(root.Blocks[0], 0, isInstr(x)); r {
 			return true
 		}
@@ -373,7 +380,7 @@ func OnlyViaEdge(x ssa.Instruction, from *ssa.BasicBlock, succ int) bool {
 	if !ReachableFromEntry(x) {
 		return false
 	}
-	for _, root := range Roots(x.Parent()) {
+	for _, root := range queryRoots(x.Parent()) {
 		if r, _ := (PathQuery{SkipEdge: func(b *ssa.BasicBlock, s int) bool { return b == from && s == succ }, Root: root}).Reaches(root.Blocks[0], 0, isInstr(x)); r {
 			return false
 		}
@@ -557,7 +564,7 @@ func (g Guard) CondTrue() bool { return g.Succ == 0 }
 func GuardsOf(x ssa.Instruction) []Guard {
 	var out []Guard
 	seen := map[*ssa.If]bool{}
-	for _, root := range Roots(x.Parent()) {
+	for _, root := range queryRoots(x.Parent()) {
 		for _, i := range Ifs(root) {
 			if seen[i] {
 				continue
